@@ -54,9 +54,9 @@ var impls = []*impl{
 		},
 		public: func(sk any) any { return sk.(*mldsa44.PrivateKey).Public() },
 		sign: func(sk any, msg, ctx []byte, randomized bool) ([]byte, error) {
-			sig := dirty(mldsa44.SignatureSize)
+			sig := dirty(mldsa44.SignatureSize + extraFor(msg))
 			err := mldsa44.SignTo(sk.(*mldsa44.PrivateKey), msg, ctx, randomized, sig)
-			return sig, err
+			return sig[:mldsa44.SignatureSize], err
 		},
 		verify: func(pk any, msg, ctx, sig []byte) bool {
 			return mldsa44.Verify(pk.(*mldsa44.PublicKey), msg, ctx, sig)
@@ -80,9 +80,9 @@ var impls = []*impl{
 		},
 		public: func(sk any) any { return sk.(*mldsa65.PrivateKey).Public() },
 		sign: func(sk any, msg, ctx []byte, randomized bool) ([]byte, error) {
-			sig := dirty(mldsa65.SignatureSize)
+			sig := dirty(mldsa65.SignatureSize + extraFor(msg))
 			err := mldsa65.SignTo(sk.(*mldsa65.PrivateKey), msg, ctx, randomized, sig)
-			return sig, err
+			return sig[:mldsa65.SignatureSize], err
 		},
 		verify: func(pk any, msg, ctx, sig []byte) bool {
 			return mldsa65.Verify(pk.(*mldsa65.PublicKey), msg, ctx, sig)
@@ -106,9 +106,9 @@ var impls = []*impl{
 		},
 		public: func(sk any) any { return sk.(*mldsa87.PrivateKey).Public() },
 		sign: func(sk any, msg, ctx []byte, randomized bool) ([]byte, error) {
-			sig := dirty(mldsa87.SignatureSize)
+			sig := dirty(mldsa87.SignatureSize + extraFor(msg))
 			err := mldsa87.SignTo(sk.(*mldsa87.PrivateKey), msg, ctx, randomized, sig)
-			return sig, err
+			return sig[:mldsa87.SignatureSize], err
 		},
 		verify: func(pk any, msg, ctx, sig []byte) bool {
 			return mldsa87.Verify(pk.(*mldsa87.PublicKey), msg, ctx, sig)
@@ -132,9 +132,9 @@ var impls = []*impl{
 		},
 		public: func(sk any) any { return sk.(*mode2.PrivateKey).Public() },
 		sign: func(sk any, msg, ctx []byte, randomized bool) ([]byte, error) {
-			sig := dirty(mode2.SignatureSize)
+			sig := dirty(mode2.SignatureSize + extraFor(msg))
 			mode2.SignTo(sk.(*mode2.PrivateKey), msg, sig)
-			return sig, nil
+			return sig[:mode2.SignatureSize], nil
 		},
 		verify: func(pk any, msg, ctx, sig []byte) bool {
 			return mode2.Verify(pk.(*mode2.PublicKey), msg, sig)
@@ -158,9 +158,9 @@ var impls = []*impl{
 		},
 		public: func(sk any) any { return sk.(*mode3.PrivateKey).Public() },
 		sign: func(sk any, msg, ctx []byte, randomized bool) ([]byte, error) {
-			sig := dirty(mode3.SignatureSize)
+			sig := dirty(mode3.SignatureSize + extraFor(msg))
 			mode3.SignTo(sk.(*mode3.PrivateKey), msg, sig)
-			return sig, nil
+			return sig[:mode3.SignatureSize], nil
 		},
 		verify: func(pk any, msg, ctx, sig []byte) bool {
 			return mode3.Verify(pk.(*mode3.PublicKey), msg, sig)
@@ -184,9 +184,9 @@ var impls = []*impl{
 		},
 		public: func(sk any) any { return sk.(*mode5.PrivateKey).Public() },
 		sign: func(sk any, msg, ctx []byte, randomized bool) ([]byte, error) {
-			sig := dirty(mode5.SignatureSize)
+			sig := dirty(mode5.SignatureSize + extraFor(msg))
 			mode5.SignTo(sk.(*mode5.PrivateKey), msg, sig)
-			return sig, nil
+			return sig[:mode5.SignatureSize], nil
 		},
 		verify: func(pk any, msg, ctx, sig []byte) bool {
 			return mode5.Verify(pk.(*mode5.PublicKey), msg, sig)
@@ -198,6 +198,20 @@ func init() {
 	for _, im := range impls {
 		im.scheme = schemes.ByName(im.p.Name)
 	}
+}
+
+// extraFor: SignTo takes any buffer of AT LEAST SignatureSize octets and
+// writes the signature to its first SignatureSize octets; two messages in
+// three get a longer buffer (1, 7 or 64 octets more).
+func extraFor(msg []byte) int {
+	return []int{0, 1, 7, 64, 0, 3}[(len(msg)+int(sum8(msg)))%6]
+}
+
+func sum8(b []byte) (s byte) {
+	for _, x := range b {
+		s += x
+	}
+	return
 }
 
 // dirty returns a buffer that is not zero: a signature must be written in
